@@ -62,12 +62,12 @@ def pos_fn(mode, n):
     return lambda j: 'n' if j < max(1, n - 1) else 'v'     # one incompatible node (without edges to the others, see build)
 
 
-def close(a, b):
+def close(a, b, rel=1e-12):
     if a == b:
         return True
     if math.isinf(a) or math.isinf(b) or math.isnan(a) or math.isnan(b):
         return False
-    return abs(a - b) <= 1e-12 * max(abs(a), abs(b), 1e-300)
+    return abs(a - b) <= rel * max(abs(a), abs(b), 1e-300)
 
 
 def run_case(case, rec):
@@ -111,7 +111,20 @@ def check_graph(rec, r, wn, sim, gid, g, edges, pos_of):
     dag = g.acyclic()
     what = f'graph n={n} edges={edges} pos={[pos_of(j) for j in range(n)]}'
     # weights: from a random corpus through the real compute (validated in C15) or arbitrary positive numbers
-    if r.random() < 0.6:
+    tol = 1e-12
+    if r.random() < 0.12:
+        # web-scale counts that nearly tie: the information content of a synset and of its hypernym then differ in the
+        # tenth digit, which is a difference (jcn finite and huge), not a tie (jcn infinite).  The formula is ill-conditioned
+        # there, so values are compared to four digits only - what matters is finite versus infinite
+        freq = {p: {None: 0.0} for p in 'nvar'}
+        for j in range(n):
+            p = 'a' if pos_of(j) == 's' else pos_of(j)
+            freq[p][ss[j].id] = r.choice([1e12, 1e12 + 900.0, 1e12 + 1800.0, 1e12 + 900.0, 2e12])
+        for p in freq:
+            freq[p][None] = sum(v for k, v in freq[p].items() if k is not None) + 1e12
+        wsrc = 'near-ties'
+        tol = 1e-4
+    elif r.random() < 0.6:
         corpus = [f'w{gid}x{r.randrange(n)}' for _ in range(r.randint(0, 12))]
         freq = wn.ic.compute(corpus, w, distribute_weight=r.choice([True, False]), smoothing=r.choice([1.0, 0.1]))
         wsrc = 'compute'
@@ -238,7 +251,7 @@ def check_graph(rec, r, wn, sim, gid, g, edges, pos_of):
                                         want.append(1 / (ic1 + ic2 - 2 * ic0))
                                 else:
                                     want.append(0.0 if (ic1 == 0 or ic2 == 0) else 2 * ic0 / (ic1 + ic2))
-                    if want is not None and not any(close(v, x) for x in want):
+                    if want is not None and not any(close(v, x, tol) for x in want):
                         rec.violation(f'{name}:value', f'{here} = {v!r}, formula gives {want} (shortest path {p}, lowest common hypernyms {sorted(map(str, lcs))})')
                     # ---- bounds
                     if name == 'path' and not (0 <= v <= 1 and (v == 1) == (a == b or p == 0) and (v == 0) == (p is None)):
